@@ -18,8 +18,8 @@ EXTENDS Integers, Sequences, FiniteSets, TLC
 
 Kinds == {"extends", "import", "render", "renderd"}
 ESC == <<"..">>                       \* "the resolution leaves the root" (never a valid name)
-Front(s) == SubSeq(s, 1, Len(s) - 1)
-Dir(n) == IF Len(n) <= 1 THEN <<>> ELSE Front(n)          \* directory of a rooted name; <<>> = root
+ButLast(s) == SubSeq(s, 1, Len(s) - 1)
+Dir(n) == IF Len(n) <= 1 THEN <<>> ELSE ButLast(n)          \* directory of a rooted name; <<>> = root
 IsAbs(p) == Len(p) >= 2 /\ p[1] = ""                      \* the string starts with "/"
 
 (* ===================================== 1. REFERENCE ====================================== *)
@@ -38,7 +38,7 @@ RECURSIVE Walk(_, _, _)
 Walk(stack, p, i) ==
   IF i > Len(p) THEN stack
   ELSE IF p[i] \in {"", "."} THEN Walk(stack, p, i + 1)
-  ELSE IF p[i] = ".." THEN (IF stack = <<>> THEN ESC ELSE Walk(Front(stack), p, i + 1))
+  ELSE IF p[i] = ".." THEN (IF stack = <<>> THEN ESC ELSE Walk(ButLast(stack), p, i + 1))
   ELSE Walk(Append(stack, p[i]), p, i + 1)
 Rooted(dir, p) == IF IsAbs(p) THEN Walk(<<>>, p, 2) ELSE Walk(dir, p, 1)
 
@@ -51,33 +51,46 @@ ValidTP(p) == LET q == IF IsAbs(p) THEN Tail(p) ELSE StripUps(p) IN q # <<".">> 
 RefIdx(g, f) == SelectSeq([i \in 1..Len(g.refs) |-> i], LAMBDA i : g.refs[i].o = f)
 Target(g, i) == Rooted(Dir(g.refs[i].o), g.refs[i].p)
 CleanFile(g, f) == \A i \in 1..Len(g.refs) : g.refs[i].o = f => ValidTP(g.refs[i].p)
-
-\* Files certainly loaded by a build that succeeds: from the entry file, through every reference
-\* of a file all of whose referenced paths are valid template paths (what happens with a file
-\* containing an invalid path is left open, so nothing is demanded beyond it).
-LiveRefs(g, S) == {i \in 1..Len(g.refs) : g.refs[i].o \in S /\ CleanFile(g, g.refs[i].o)}
-Succ(g, S) == {Target(g, i) : i \in LiveRefs(g, S)} \cap g.files
-RECURSIVE Closure(_, _, _)
-Closure(g, S, n) == IF n = 0 THEN S ELSE Closure(g, S \cup Succ(g, S), n - 1)
-ReachFrom(g, S) == Closure(g, S, Cardinality(g.files))
-Reach(g) == IF g.entry \in g.files THEN ReachFrom(g, {g.entry}) ELSE {}
-\* a cycle of extends/import/render reachable from the entry file
-HasCycle(g) == \E f \in Reach(g) : f \in ReachFrom(g, Succ(g, {f}))
-\* a reachable reference that would leave the root.  `render p default e` tolerates a missing
-\* file, so an escaping renderd is simply absent; an escaping import is not found as a file and,
-\* no package of that name being supplied by the harness, not found as a package either.
-EscRefs(g) == {i \in LiveRefs(g, Reach(g)) : Target(g, i) = ESC /\ g.refs[i].k # "renderd"}
-EscReached(g) == EscRefs(g) # {}
-\* Causes of failure the property does NOT speak about (extends placement, one file used in two
-\* roles, invalid paths).  Conservative over-approximation; only used to decide when the CLASS
-\* of the error is demanded to be "not found".
 SameRole(k1, k2) == k1 = k2 \/ {k1, k2} = {"render", "renderd"}
-OtherPossible(g) ==
-  \/ \E f \in Reach(g) : ~CleanFile(g, f)
-  \/ \E i \in LiveRefs(g, Reach(g)) : g.refs[i].k = "extends" /\ (g.refs[i].o # g.entry \/ RefIdx(g, g.entry)[1] # i)
-  \/ \E i, j \in LiveRefs(g, Reach(g)) : Target(g, i) = Target(g, j) /\ ~SameRole(g.refs[i].k, g.refs[j].k)
-  \/ \E i, j \in LiveRefs(g, Reach(g)) : g.refs[i].o = g.refs[j].o /\ i < j /\ g.refs[i].k \in {"render", "renderd"} /\ g.refs[j].k \in {"extends", "import"}
-SoleEscape(g) == EscReached(g) /\ ~HasCycle(g) /\ ~OtherPossible(g)
+
+\* successors of the files S through the references of "clean" files; tg[i] = Target(g, i)
+SuccT(g, tg, clean, S) == {tg[i] : i \in {j \in 1..Len(g.refs) : g.refs[j].o \in S /\ g.refs[j].o \in clean}} \cap g.files
+RECURSIVE ClosureT(_, _, _, _, _)
+ClosureT(g, tg, clean, S, n) ==
+  IF n = 0 THEN S ELSE LET S2 == S \cup SuccT(g, tg, clean, S) IN IF S2 = S THEN S ELSE ClosureT(g, tg, clean, S2, n - 1)
+
+(* Facts(g): what the property's outcome clauses need to know about a graph (computed once).
+   reach  files certainly loaded by a build that succeeds: from the entry file, through every
+          reference of a file all of whose referenced paths are valid template paths (what
+          happens with a file containing an invalid path is left open, so nothing is demanded
+          beyond it)
+   cyc    a cycle of extends/import/render is reachable from the entry file
+   esc    the reachable references that would leave the root.  `render p default e` tolerates a
+          missing file, so an escaping renderd is simply absent; an escaping import is not found
+          as a file and, no package of that name being supplied by the harness, not found as a
+          package either
+   other  a cause of failure the property does NOT speak about is possible (extends placement,
+          one file used in two roles, invalid paths, statement order): conservative
+          over-approximation, only used to decide when the CLASS of the error is demanded to be
+          "not found"                                                                          *)
+Facts(g) ==
+  LET n == Len(g.refs)
+      tg == [i \in 1..n |-> Target(g, i)]
+      clean == {f \in g.files : CleanFile(g, f)}
+      reach == IF g.entry \in g.files THEN ClosureT(g, tg, clean, {g.entry}, Cardinality(g.files)) ELSE {}
+      live == {i \in 1..n : g.refs[i].o \in reach /\ g.refs[i].o \in clean}
+      firstOfEntry == IF \E i \in 1..n : g.refs[i].o = g.entry THEN CHOOSE i \in 1..n : g.refs[i].o = g.entry /\ \A j \in 1..(i - 1) : g.refs[j].o # g.entry ELSE 0
+  IN [reach |-> reach,
+      cyc |-> \E f \in reach : f \in ClosureT(g, tg, clean, SuccT(g, tg, clean, {f}), Cardinality(g.files)),
+      esc |-> {i \in live : tg[i] = ESC /\ g.refs[i].k # "renderd"},
+      other |-> \/ \E f \in reach : f \notin clean
+                \/ \E i \in live : g.refs[i].k = "extends" /\ i # firstOfEntry
+                \/ \E i, j \in live : tg[i] = tg[j] /\ ~SameRole(g.refs[i].k, g.refs[j].k)
+                \/ \E i, j \in live : g.refs[i].o = g.refs[j].o /\ i < j /\ g.refs[i].k \in {"render", "renderd"} /\ g.refs[j].k \in {"extends", "import"}]
+Reach(g) == Facts(g).reach
+HasCycle(g) == Facts(g).cyc
+EscReached(g) == Facts(g).esc # {}
+OtherPossible(g) == Facts(g).other
 \* "the set of names that may be opened" (static over-approximation; Provenance below is the
 \* log-sensitive version)
 MayOpen(g) == {g.entry} \cup ({Rooted(Dir(g.refs[i].o), g.refs[i].p) : i \in 1..Len(g.refs)} \ {ESC})
@@ -106,23 +119,23 @@ OpenClause(g, opens) ==
   ELSE ""
 \* ... and about the outcome
 OutcomeClause(g, oc) ==
-  IF HasCycle(g) /\ ~IsError(oc) THEN "cycle-is-error"
-  ELSE IF EscReached(g) /\ ~IsError(oc) THEN "escape-is-error"
+  LET F == Facts(g) IN
+  IF F.cyc /\ ~IsError(oc) THEN "cycle-is-error"
+  ELSE IF F.esc # {} /\ ~IsError(oc) THEN "escape-is-error"
   \* the error CLASS is demanded only when leaving the root / a missing file is the one thing
   \* wrong with the graph (otherwise which error comes first is the implementation's business)
-  ELSE IF SoleEscape(g) /\ oc # "notexist" THEN "escape-not-found-class"
+  ELSE IF F.esc # {} /\ ~F.cyc /\ ~F.other /\ oc # "notexist" THEN "escape-not-found-class"
   ELSE ""
 Clause(g, opens, oc, term) ==
   IF ~term THEN "terminates"                                  \* ... rather than recursing / hangs
-  ELSE IF OpenClause(g, opens) # "" THEN OpenClause(g, opens)
-  ELSE OutcomeClause(g, oc)
+  ELSE LET c == OpenClause(g, opens) IN IF c # "" THEN c ELSE OutcomeClause(g, oc)
 \* detail for the signature: what identifies the root cause
 Detail(g, opens, oc, term) ==
   LET c == Clause(g, opens, oc, term) IN
   IF c = "open-valid-path" THEN (LET i == CHOOSE i \in 1..Len(opens) : ~ValidPath(opens[i].n) /\ \A j \in 1..(i - 1) : ValidPath(opens[j].n) IN opens[i].n)
   ELSE IF c = "open-provenance" THEN (LET i == CHOOSE i \in 1..Len(opens) : ~Provenance(g, opens, i) /\ \A j \in 1..(i - 1) : Provenance(g, opens, j) IN opens[i].n)
   ELSE IF c = "read-once" THEN (LET i == CHOOSE i \in ReadTwice(opens) : \A j \in ReadTwice(opens) : i <= j IN opens[i].n)
-  ELSE IF c \in {"escape-is-error", "escape-not-found-class"} THEN (LET i == CHOOSE i \in EscRefs(g) : \A j \in EscRefs(g) : i <= j IN <<g.refs[i].k>> \o g.refs[i].p)
+  ELSE IF c \in {"escape-is-error", "escape-not-found-class"} THEN (LET E == Facts(g).esc i == CHOOSE i \in E : \A j \in E : i <= j IN <<g.refs[i].k>> \o g.refs[i].p)
   ELSE IF c = "cycle-is-error" THEN <<oc>>
   ELSE <<>>
 
@@ -184,7 +197,7 @@ RECURSIVE CleanEl(_, _, _)
 CleanEl(out, p, i) ==
   IF i > Len(p) THEN (IF out = <<>> THEN <<".">> ELSE out)
   ELSE IF p[i] \in {"", "."} THEN CleanEl(out, p, i + 1)
-  ELSE IF p[i] = ".." THEN (IF out # <<>> /\ out[Len(out)] # ".." THEN CleanEl(Front(out), p, i + 1)
+  ELSE IF p[i] = ".." THEN (IF out # <<>> /\ out[Len(out)] # ".." THEN CleanEl(ButLast(out), p, i + 1)
                             ELSE CleanEl(Append(out, ".."), p, i + 1))
   ELSE CleanEl(Append(out, p[i]), p, i + 1)
 \* rooted(parent, name).  strings.HasPrefix(r, "..") is modelled as "first element is .." (no
@@ -227,7 +240,7 @@ G_ReturnTop(st) == AtEnd(st) /\ Len(st.stack) = 1                 \* back in Par
 E_ReturnTop(st) == [st EXCEPT !.stack = <<>>, !.out = IF st.pend THEN "notexist" ELSE "ok"]
 G_ReturnChild(st) == AtEnd(st) /\ Len(st.stack) > 1               \* back in parseNodeFile: pp.trees[name] = parsed
 E_ReturnChild(st) == LET caller == st.stack[Len(st.stack) - 1] IN
-  Advance([st EXCEPT !.stack = Front(st.stack), !.trees = @ \cup {[n |-> Top(st).f, k |-> CurOf(st, caller).k]}])
+  Advance([st EXCEPT !.stack = ButLast(st.stack), !.trees = @ \cup {[n |-> Top(st).f, k |-> CurOf(st, caller).k]}])
 \* ---- expand: one node
 G_ExtendsForbidden(st) == HasCur(st) /\ Cur(st).k = "extends" /\ ~st.canExtend
 E_ExtendsForbidden(st) == Fail(st, "other")
